@@ -9,7 +9,8 @@ From TLV Require Import Base.Shape Base.PyList Base.Tensor Base.Ops Model.Base M
      Proofs.SvdDecompHooi Proofs.SvdDecompHooiR Proofs.SvdDecompRanks
      Proofs.SvdDecompTuckerErr Proofs.SvdDecompTuckerBound Proofs.SvdDecompHosvdBound
      Proofs.SvdDecompPartial Proofs.SvdDecompTuckerGen Proofs.SvdDecompRingErr Proofs.SvdDecompTTMErr
-     Proofs.SvdDecompValidate Proofs.SvdDecompRingPartial Proofs.SvdDecompRingErrR.
+     Proofs.SvdDecompValidate Proofs.SvdDecompRingPartial Proofs.SvdDecompRingErrR
+     Proofs.SvdDecompRankCond.
 Import ListNotations.
 
 (* exactness of one TT-SVD step, over every commutative ring: truncating + sign-flipping a
@@ -505,7 +506,7 @@ Theorem C09_tucker_error_lower_partial : forall (svd : nat -> tensor R -> svdans
   tucker Rops svd X rank n_iter = Ok (core, fs) -> tucker_to_tensor Rops core fs = Ok Xh ->
   k < length fs -> shape (nth k fs (mk [] [])) = [nth k (shape X) 0; r] -> shape Xh = shape X ->
   unfold 0%R X k = Ok Xk ->
-  svd_full_contract Xk (nth k (shape X) 0) (prod (remove_nth k (shape X))) r a ->
+  svd_sorted_contract Xk (nth k (shape X) 0) (prod (remove_nth k (shape X))) r a ->
   (tail2 Rops r (snd3 a) <= terr2 Rops X Xh)%R.
 Proof. exact tucker_error_lower_partial. Qed.
 Print Assumptions C09_tucker_error_lower_partial.
@@ -516,7 +517,7 @@ Theorem C09_tt_error_lower_partial : forall (svd : nat -> tensor R -> svdans),
   eckart_young_stmt ->
   forall (X : tensor R) (rank : rank_spec) (cores : list (tensor R)) (k : nat) (aX : svdans),
   tensor_train Rops svd X rank = Ok cores -> 0 < k -> k < ndim X ->
-  svd_full_contract (x_unfolding X k) (prod (firstn k (shape X))) (prod (skipn k (shape X)))
+  svd_sorted_contract (x_unfolding X k) (prod (firstn k (shape X))) (prod (skipn k (shape X)))
                     (nth 2 (shape (nth (k - 1) cores (mk [] []))) 0) aX ->
   (tail2 Rops (nth 2 (shape (nth (k - 1) cores (mk [] []))) 0%nat) (snd3 aX) <= tt_err2 Rops X cores)%R.
 Proof. exact tt_error_lower_partial. Qed.
@@ -578,8 +579,82 @@ Theorem C09_tensor_ring_error_lower_partial : forall (svd : nat -> tensor R -> s
   tensor_ring Rops svd X rank mode = Ok cores ->
   exists l, bonds l cores l /\
     forall b aX, 0 < b -> b < ndim X ->
-      svd_full_contract (x_unfolding X b) (prod (firstn b (shape X))) (prod (skipn b (shape X)))
+      svd_sorted_contract (x_unfolding X b) (prod (firstn b (shape X))) (prod (skipn b (shape X)))
                         (l * nth 2 (shape (nth (b - 1) cores (mk [] []))) 0) aX ->
       (tail2 Rops (l * nth 2 (shape (nth (b - 1) cores (mk [] []))) 0%nat) (snd3 aX) <= tr_err2 Rops X cores)%R.
 Proof. exact tensor_ring_error_lower_partial. Qed.
 Print Assumptions C09_tensor_ring_error_lower_partial.
+
+(* ---------------------------------------------------------------- round 4: the Eckart-Young hypothesis, repaired and shown satisfiable
+   eckart_young_stmt now requires the singular values to be non-negative and non-increasing (svd_sorted_contract); without that
+   clause it was false (M = diag(1,2), S = [1;2], r = 1) and the three _partial lower bounds above were vacuous.
+   Proved instances of the statement (the hypothesis is satisfiable): nothing kept, everything kept, and a genuinely truncating
+   diagonal case. *)
+Theorem C09_eckart_young_rank0 : forall (M : tensor R) (m n : nat) (a : svdans),
+  svd_sorted_contract M m n 0 a -> ey_for M m n 0 a.
+Proof. exact eckart_young_rank0. Qed.
+Print Assumptions C09_eckart_young_rank0.
+
+Theorem C09_eckart_young_no_discard : forall (M : tensor R) (m n : nat) (a : svdans),
+  svd_sorted_contract M m n (length (snd3 a)) a -> ey_for M m n (length (snd3 a)) a.
+Proof. exact eckart_young_no_discard. Qed.
+Print Assumptions C09_eckart_young_no_discard.
+
+(* M = diag(2, 1), SVD (I, [2; 1], I), one triplet kept: the sorted contract holds and no p q^T is closer to M than 1 *)
+Theorem C09_eckart_young_diag_instance : svd_sorted_contract ey_M 2 2 1 ey_a /\ ey_for ey_M 2 2 1 ey_a.
+Proof. exact (conj ey_instance_contract ey_instance_holds). Qed.
+Print Assumptions C09_eckart_young_diag_instance.
+
+(* local forms (Eckart-Young assumed only for the one unfolding that is cut), for ANY cores with matching bonds *)
+Theorem C09_tt_error_lower_local_partial : forall (X : tensor R) (cores : list (tensor R)) (k : nat) (aX : svdans),
+  bonds 1 cores 1 -> length cores = ndim X -> 0 < k -> k < ndim X ->
+  ey_for (x_unfolding X k) (prod (firstn k (shape X))) (prod (skipn k (shape X)))
+         (nth 2 (shape (nth (k - 1) cores (mk [] []))) 0) aX ->
+  (tail2 Rops (nth 2 (shape (nth (k - 1) cores (mk [] []))) 0%nat) (snd3 aX) <= tt_err2 Rops X cores)%R.
+Proof. exact chain_cores_error_lower_local. Qed.
+Print Assumptions C09_tt_error_lower_local_partial.
+
+Theorem C09_tensor_ring_error_lower_local_partial : forall (X : tensor R) (cores : list (tensor R)) (l b : nat) (aX : svdans),
+  bonds l cores l -> length cores = ndim X -> 0 < b -> b < ndim X ->
+  ey_for (x_unfolding X b) (prod (firstn b (shape X))) (prod (skipn b (shape X)))
+         (l * nth 2 (shape (nth (b - 1) cores (mk [] []))) 0) aX ->
+  (tail2 Rops (l * nth 2 (shape (nth (b - 1) cores (mk [] []))) 0%nat) (snd3 aX) <= tr_err2 Rops X cores)%R.
+Proof. exact ring_error_lower_local. Qed.
+Print Assumptions C09_tensor_ring_error_lower_local_partial.
+
+(* ALL hypotheses of the two local lower bounds discharged jointly on X = diag(2, 1) with the cores TT-SVD / TR-SVD return
+   for the request (1,1,1): 1 <= error^2 *)
+Example C09_nonvacuous_tt_lower :
+  let cores := [mk [1; 2; 1] [1; 0]%R; mk [1; 2; 1] [2; 0]%R] in
+  bonds 1 cores 1 /\ length cores = ndim ey_M /\
+  svd_sorted_contract (x_unfolding ey_M 1) 2 2 1 ey_a /\
+  ey_for (x_unfolding ey_M 1) (prod (firstn 1 (shape ey_M))) (prod (skipn 1 (shape ey_M)))
+         (nth 2 (shape (nth (1 - 1) cores (mk [] []))) 0) ey_a /\
+  (tail2 Rops 1 (snd3 ey_a) <= tt_err2 Rops ey_M cores)%R.
+Proof. exact chain_cores_error_lower_nonvacuous. Qed.
+
+Example C09_nonvacuous_ring_lower :
+  let cores := [mk [1; 2; 1] [1; 0]%R; mk [1; 2; 1] [2; 0]%R] in
+  bonds 1 cores 1 /\ length cores = ndim ey_M /\
+  svd_sorted_contract (x_unfolding ey_M 1) 2 2 (1 * 1) ey_a /\
+  (tail2 Rops (1 * 1) (snd3 ey_a) <= tr_err2 Rops ey_M cores)%R.
+Proof. exact ring_error_lower_nonvacuous. Qed.
+
+(* from the property's RANK CONDITION to the per-run contract (PARTIAL: Eckart-Young as named hypothesis): a matrix that
+   factors through inner dimension r has only zero singular values beyond r, hence meets the exactness contract *)
+Theorem C09_low_rank_svd_contract_partial : eckart_young_stmt ->
+  forall (M : tensor R) (m n r : nat) (a : svdans),
+  svd_sorted_contract M m n r a -> factors_through M m n r -> svd_contract M m n r a.
+Proof. exact low_rank_svd_contract. Qed.
+Print Assumptions C09_low_rank_svd_contract_partial.
+
+(* HOSVD (tucker with n_iter_max = 0; all its SVD calls are on unfoldings of X itself) is exact whenever the requested ranks
+   are at least the ranks of the mode unfoldings of X -- the property's own condition -- given Eckart-Young *)
+Theorem C09_hosvd_exact_from_rank_condition_partial : eckart_young_stmt ->
+  forall (svd : nat -> tensor R -> svdans) (X : tensor R) (rank : rank_spec) (core : tensor R) (fs : list (tensor R)),
+  wf X -> 0 < prod (shape X) ->
+  hosvd_rank_condition svd X (validate_tucker_rank (ndim X) rank) 0 0 ->
+  tucker Rops svd X rank 0 = Ok (core, fs) ->
+  tucker_to_tensor Rops core fs = Ok X.
+Proof. exact hosvd_exact_from_rank_condition_partial. Qed.
+Print Assumptions C09_hosvd_exact_from_rank_condition_partial.
